@@ -79,13 +79,18 @@ def last_call(trace, l):
     return None
 
 
-def classify(f, trace, state):
+def classify(f, trace, state, prop=None):
     """-> (signature, persistent).  A signature names a class of rejected event by
     where it happens and what is wrong; `state` carries per-trace memory (earlier
-    findings in the same trace)."""
+    findings in the same trace).  One rejected event can show two recorded findings at
+    once (a rejected deletion that shifts the constraint AND leaves the neighbour list
+    unusable): each property's check looks at its own part of the failing fields."""
     setup = trace["setup"]
     entry = setup["moves"].get(f["name"], {"ctype": "?", "elems": []})
+    own = {"C03": C03_FIELDS, "C04": C04_FIELDS, "C05": C05_FIELDS}.get(prop)
     what = sorted(f["what"])
+    if own and f["kind"] != "raise" and set(what) & own:
+        what = sorted(set(what) & own)
     call = last_call(trace, f["l"])
     subs = call["subs"] if call else []
     nins = sum(1 for s in subs if s["ok"] and s.get("dir") == "ins" and s["k"] == "exch")
@@ -185,11 +190,11 @@ def replay_layer(rep, prop, tier):
 
 
 FAMILIES = {
-    "C03": ["canon", "gc", "gc", "npt", "hmc"],
+    "C03": ["canon", "gc", "gc", "npt", "hmc", "canon_noreset", "npt_noreset", "gc"],
     "C04": ["canon", "gc", "npt", "hmc"],
     "C05": ["gc", "gc", "gc", "gcdrain"],
     "C11": ["canon", "canon", "gc", "npt", "gcdrain"],
-    "C12": ["canon", "canon", "hmc", "npt", "gc"],
+    "C12": ["canon", "canon", "hmc", "npt", "gc", "canon_noreset"],
     "C14": ["hmc"],
     "C20": ["canon", "gc", "npt", "hmc"],
 }
@@ -238,7 +243,7 @@ def engine_check(prop, tier, level="model_checking", n_quick=240, n_thorough=240
             # events of one trial: the first rejected event is primary, later ones in the same trial are consequences
             trial_start = max((i + 1 for i, e in enumerate(t["ev"][: f["l"]]) if e["a"] == "yield"), default=1)
             props = attribute(f, t)
-            sig, persistent = classify(f, t, state)
+            sig, persistent = classify(f, t, state, prop)
             if prop in props:
                 consequence = trial_bad == trial_start and rep.findings.known(prop, sig) is None and not any(v["signature"] == sig for v in rep.violations)
                 if not consequence:  # a later rejected event of the same trial is reported with the first one
